@@ -371,7 +371,7 @@ class CGWorld(World):
                 return
             if st.get("unjudged"):
                 return
-            if not np.all(np.isfinite(xk.view(np.float64))):
+            if not np.all(np.isfinite(xk)):
                 raise Violation("nonfinite_iterate", "ConjugateGradient.update", step, {"k": kk})
             # -- breakdown bookkeeping (fault runs)
             curv_bad = fstate["active"] and fstate.get("last_curv", 1.0) <= 0
